@@ -256,6 +256,8 @@ def run(R):
              "rocket_fft.good_size is evaluated concretely (its argument is concrete inside the bounds)", "exact arithmetic")
     R.out_of_claim("NOT DECIDED: that the FFT library computes the discrete Fourier sum, Parseval's identity, and the float32 FFT rounding error",
                    "lengths beyond the bounds")
+    from .. import kvalid
+    kvalid.validate(R, ["circular_pad_goodsize"])
     chunks = [items[i::12] for i in range(12)]
     parts = R.pmap(batch, chunks)
     R.vacuity_witness("c12", sum(p.reached for p in parts) > 0)
